@@ -1,0 +1,42 @@
+//go:build verif
+
+// Contracts for the verification machinery in /verif (comment-only; no declarations).
+// C12: hole punching is coordinated only over a relayed connection, dials only non-relay addresses and
+// reports success only when a direct connection exists.
+
+package holepunch
+
+//@ func isRelayAddress
+//@ prop C12
+//@ trusted
+//@ pure
+
+//@ func removeRelayAddrs
+//@ prop C12
+//@ ensures forall j int :: 0 <= j && j < len(result) ==> !isRelayAddress(result[j])
+//@ noframe
+
+//@ func getDirectConnection
+//@ prop C12
+//@ ensures result != nil ==> !isRelayAddress(result.RemoteMultiaddr())
+//@ noframe
+
+//@ func (s *Service) incomingHolePunch
+//@ prop C12
+//@ ensures err == nil ==> isRelayAddress(str.Conn().RemoteMultiaddr())
+//@ ensures err == nil && s.filter == nil ==> forall j int :: 0 <= j && j < len(remoteAddrs) ==> !isRelayAddress(remoteAddrs[j])
+//@ noframe
+
+//@ func holePunchConnect
+//@ prop C12
+//@ callsite Connect#0 requires arg1 == ret(WithForceDirectDial, 0, 0) && arg2 == pi
+//@ ensures result == nil ==> called(Connect, 0) && ret(Connect, 0, 0) == nil
+//@ noframe
+
+//@ func (hp *holePuncher) directConnect
+//@ prop C12
+//@ noinline holePunchConnect, getDirectConnection, initiateHolePunch
+//@ callsite Connect#0 requires arg(WithTimeout, 0, 0) == ret(WithForceDirectDial, 0, 0) && arg1 == ret(WithTimeout, 0, 0)
+//@ ensures result == nil ==> (ret(getDirectConnection, 0, 0) != nil) || (called(Connect, 0) && ret(Connect, 0, 0) == nil) ||
+//@         (called(holePunchConnect, 0) && ret(holePunchConnect, 0, 0) == nil) || (called(Err, 0) && result == ret(Err, 0, 0))
+//@ noframe
